@@ -399,6 +399,13 @@ class _Sub(ast.NodeTransformer):
             return ast.Attribute(value=node.args[0], attr=node.args[1].value, ctx=ast.Load())
         return node
 
+    def visit_Subscript(self, node: ast.Subscript):
+        self.generic_visit(node)
+        # (a, b, c)[1] with a (now) literal tuple of plain expressions is b
+        if isinstance(node.ctx, ast.Load) and isinstance(node.value, (ast.Tuple, ast.List)) and isinstance(node.slice, ast.Constant) and type(node.slice.value) is int and all(_pure(e) for e in node.value.elts) and -len(node.value.elts) <= node.slice.value < len(node.value.elts):
+            return node.value.elts[node.slice.value]
+        return node
+
 
 _KEEP: frozenset = frozenset()
 _HOIST_TESTS = False
@@ -664,6 +671,33 @@ def _eval_order(e: ast.AST):
         yield _Opaque()
 
 
+def _table_entry(model: Model, fi: FuncInfo, e: ast.AST) -> ast.AST:
+    """TABLE["key"] with TABLE a module-level literal dict that nothing writes and whose entry for that constant key is a
+    plain expression or a tuple of plain expressions: that entry"""
+    if not (isinstance(e, ast.Subscript) and isinstance(e.value, ast.Name) and isinstance(e.slice, ast.Constant) and e.value.id not in fi.params):
+        return e
+    lit = fi.module.assigns.get(e.value.id)
+    if not isinstance(lit, ast.Dict) or not all(isinstance(k, ast.Constant) for k in lit.keys):
+        return e
+    for g in model.funcs.values():
+        if g.module is not fi.module:
+            continue
+        for n in own_nodes(g):
+            if (isinstance(n, ast.Name) and n.id == e.value.id and isinstance(n.ctx, (ast.Store, ast.Del))) or (isinstance(n, ast.Global) and e.value.id in n.names):
+                return e
+            if isinstance(n, ast.Subscript) and isinstance(n.ctx, (ast.Store, ast.Del)) and isinstance(n.value, ast.Name) and n.value.id == e.value.id:
+                return e
+            if isinstance(n, ast.Call) and isinstance(n.func, ast.Attribute) and isinstance(n.func.value, ast.Name) and n.func.value.id == e.value.id and n.func.attr in ("update", "setdefault", "pop", "clear", "popitem", "__setitem__"):
+                return e
+    vals = [v for k, v in zip(lit.keys, lit.values) if k.value == e.slice.value and type(k.value) is type(e.slice.value)]
+    if len(vals) != 1:
+        return e
+    v = vals[0]
+    if _pure(v) or (isinstance(v, (ast.Tuple, ast.List)) and all(_pure(x) for x in v.elts)):
+        return clone_ast(v)
+    return e
+
+
 def _unroll_literal_loop(st: ast.stmt, literal: Optional[ast.AST] = None) -> List[ast.stmt]:
     """for v in (a, b): body   /   for k, v in ((k1, v1), (k2, v2)): body   with a literal tuple of plain names,
     constants and attribute reads, loop variables the body does not re-bind, no break / continue / else:
@@ -705,7 +739,20 @@ def _comps_to_loops(fi: FuncInfo, body: List[ast.stmt]) -> Tuple[List[ast.stmt],
     a plain local x at statement level and one generator whose variables are used nowhere else in the function - what a
     rule that reads a per-item loop asks for (`comp_loops=True`)"""
     changed = False
-    names_elsewhere = lambda st_: {n.id for o in body if o is not st_ for n in ast.walk(o) if isinstance(n, ast.Name)} | set(fi.params)  # noqa: E731
+    def _names(o, hide=frozenset()):
+        # names used in o; a nested def's own parameters are other variables than same-named ones outside it
+        if isinstance(o, (ast.FunctionDef, ast.AsyncFunctionDef, ast.Lambda)):
+            own = {a_.arg for a_ in ast.walk(o.args) if isinstance(a_, ast.arg)}
+            inner = set()
+            for ch in (o.body if isinstance(o.body, list) else [o.body]):
+                inner |= _names(ch)
+            return (inner - own) | {n.id for d_ in getattr(o, "decorator_list", []) for n in ast.walk(d_) if isinstance(n, ast.Name)}
+        out_ = {o.id} if isinstance(o, ast.Name) else set()
+        for ch in ast.iter_child_nodes(o):
+            out_ |= _names(ch)
+        return out_
+
+    names_elsewhere = lambda st_: set().union(*[_names(o) for o in body if o is not st_]) | set(fi.params) if len(body) > 1 else set(fi.params)  # noqa: E731
     out: List[ast.stmt] = []
     for st in body:
         v = st.value if isinstance(st, ast.Assign) and len(st.targets) == 1 and isinstance(st.targets[0], ast.Name) else None
@@ -1067,8 +1114,11 @@ def _tail_helper_body(model: Model, fi: FuncInfo, body: List[ast.stmt], caller_n
     const_args: Dict[str, ast.expr] = {}
     caller_names_stores = {x.id for x in ast.walk(fi.node) if isinstance(x, ast.Name) and isinstance(x.ctx, (ast.Store, ast.Del))} | set(fi.params)
     for p_, a_ in zip(h.pos_params[skip:], call.args):
+        a_ = _table_entry(model, fi, a_)
         if isinstance(a_, ast.Name):
             ren[p_] = a_.id
+        elif isinstance(a_, (ast.Tuple, ast.List)) and a_.elts and all(_pure(e_) and not (isinstance(e_, ast.Name) and e_.id in caller_names_stores) for e_ in a_.elts) and not any(isinstance(x_, ast.Name) and x_.id == p_ and isinstance(x_.ctx, ast.Store) for st_ in h.node.body for x_ in ast.walk(st_)):
+            const_args[p_] = a_  # a literal tuple of constants / module-level names: read wherever the parameter is read
         elif isinstance(a_, ast.Constant) or (isinstance(a_, ast.Attribute) and isinstance(a_.value, ast.Name) and a_.value.id in fi.module.imports and a_.value.id not in caller_names_stores):
             const_args[p_] = a_  # a constant argument (or a name of an imported module: ast.Call) is that wherever the parameter is read
         else:
@@ -1143,6 +1193,16 @@ def _tail_helper_body(model: Model, fi: FuncInfo, body: List[ast.stmt], caller_n
                 return ast.copy_location(ast.Tuple(elts=[clone_ast(e_) for e_ in vararg_elts], ctx=ast.Load()), n)
             if n.id in const_args and isinstance(n.ctx, ast.Load):
                 return ast.copy_location(clone_ast(const_args[n.id]), n)
+            return self._rest(n)
+
+        def visit_Subscript(self, n: ast.Subscript):
+            self.generic_visit(n)
+            # <literal tuple argument>[k] is its k-th element
+            if isinstance(n.ctx, ast.Load) and isinstance(n.value, (ast.Tuple, ast.List)) and isinstance(n.slice, ast.Constant) and type(n.slice.value) is int and all(_pure(e_) for e_ in n.value.elts) and -len(n.value.elts) <= n.slice.value < len(n.value.elts):
+                return n.value.elts[n.slice.value]
+            return n
+
+        def _rest(self, n: ast.Name):
             if n.id in ren:
                 return ast.copy_location(ast.Name(id=ren[n.id], ctx=n.ctx), n)
             return n
